@@ -31,7 +31,7 @@ func vNewWorld() *vWorld {
 
 // a verification method with adversary-chosen id, type and key
 func (w *vWorld) method(site string, ids []string) *types.VerificationMethod {
-	typ := vPickString(vNondetInt(site+".type"), types.ES256K_2019, types.ES256K_2018, types.ED25519_2018, "")
+	typ := vPickString(vNondetInt(site+".type"), types.ES256K_2019, types.ES256K_2018, types.ED25519_2018, types.SS256K_2019, "")
 	return &types.VerificationMethod{
 		Id:              vPickString(vNondetInt(site+".id"), ids...),
 		Type:            typ,
